@@ -133,3 +133,19 @@ Proof.
   intros c H. unfold is_cp_char in H. destruct (N.ltb_spec c 0x10000) as [Hl|Hl]; [left|right; lia].
   split; [exact Hl|]. split; [apply is_xmlchar_spec; lia|]. unfold is_hi, is_lo. lia.
 Qed.
+
+(* ---- supplementary name characters: the surrogate-pair tests of XMLReader::getName / getNCName (read from
+        XMLReader.cpp by the translator) and the model's is_hi_name / is_lo denote exactly [#x10000-#xEFFFF] *)
+Definition pair_cp (h l : N) : N := 0x10000 + (h - 0xD800) * 1024 + (l - 0xDC00).
+Definition surr_test_ok (t : N * N * N * N) : bool :=
+  match t with (a, b, c, d) => (a =? 0xD800) && (b =? 0xDB7F) && (c =? 0xDC00) && (d =? 0xDFFF) end.
+Lemma name_surrogates_ok :
+  reader_name_surrogate_tests <> [] /\ forallb surr_test_ok reader_name_surrogate_tests = true /\
+  (forall h l, is_hi_name h = true -> is_lo l = true -> 0x10000 <= pair_cp h l <= 0xEFFFF) /\
+  (forall cp, 0x10000 <= cp <= 0xEFFFF -> exists h l, is_hi_name h = true /\ is_lo l = true /\ pair_cp h l = cp).
+Proof.
+  split; [discriminate|]. split; [vm_compute; reflexivity|]. split.
+  - intros h l Hh Hl. unfold is_hi_name, is_lo, pair_cp in *. lia.
+  - intros cp H. exists (0xD800 + (cp - 0x10000) / 1024), (0xDC00 + (cp - 0x10000) mod 1024).
+    unfold is_hi_name, is_lo, pair_cp. repeat split; lia.
+Qed.
